@@ -14,6 +14,7 @@ import itertools
 import re
 
 import featlib
+import norm_c11
 from featlib import Check, walk, render, is_call, rel, children
 
 GEO = featlib.repo_path("kernel/geometry/")
@@ -165,6 +166,11 @@ def vars_of(n):
     return out
 
 
+# observers of a container's extent: their value is not changed by a write to an element of the container
+SHAPE_OBSERVERS = ("size", "empty", "get_num_vertices", "get_num_entities", "get_index_bound", "get_num_indices",
+                   "get_num_nodes_domain", "get_num_nodes_image", "get_num_values", "get_dimension")
+
+
 def shape_vars(n):
     """variables that n mentions only as the direct receiver of size()/empty()"""
     shape, other = set(), set()
@@ -174,7 +180,7 @@ def shape_vars(n):
         if x is None:
             return
         k = x.get("k")
-        if k == "MCall" and x.get("n") in ("size", "empty") and not x.get("a"):
+        if k == "MCall" and x.get("n") in SHAPE_OBSERVERS and not x.get("a"):
             o = strip(x.get("obj"))
             if o is not None and (o.get("k") == "Ref" or is_this_field(o)):
                 nm = o["n"] if o.get("k") == "Ref" else "@" + o["n"]
@@ -326,7 +332,7 @@ def resolve_const_locals(f):
                 elif x.get("k") == "Un" and x.get("op") in ("++", "--"):
                     ok = False
             t = f.type(n.get("t")) or ""
-            if ok and re.match(r"^const (unsigned |signed |long |short |std::|FEAT::Index|int|bool|Index|size_t|u?int\d+_t)", t):
+            if ok and re.match(r"^const (unsigned |signed |long |short |std::size_t|std::ptrdiff_t|std::u?int\d+_t|FEAT::Index|int|bool|Index|size_t|u?int\d+_t)", t):
                 consts[n["d"]] = init
     if not consts:
         return
@@ -354,6 +360,7 @@ class World:
             self.by_qn.setdefault(f.qn, []).append(f)
             self.by_full.setdefault(f.full, []).append(f)
             resolve_const_locals(f)
+            norm_c11.resolve_aliases(f)        # reference / pointer aliases, single-assignment scalar locals (stability-checked)
 
     def resolve(self, call, caller=None):
         """definition of the callee of `call`; overloads sharing a printed name are told apart by the declaration id"""
@@ -431,8 +438,142 @@ class World:
             self._ecfg[id(fn)] = ECFG(fn, self.neverret or set())
         return self._ecfg[id(fn)]
 
+    # --- private helpers of the parser classes: call sites, facts at entry, parameters bound to their arguments ------------
+    def callsites(self, fn):
+        """[(caller, call node, on_this)] of every call of fn in the analysed program"""
+        if getattr(self, "_sites", None) is None:
+            self._sites = {}
+            for g in self.all_functions():
+                for n in g.nodes():
+                    if n.get("k") in ("MCall", "Call") and n.get("cfull"):
+                        self._sites.setdefault(n["cfull"], []).append((g, n))
+        out = []
+        for g, n in self._sites.get(fn.full, []):
+            if g.facts is not fn.facts:
+                continue          # the same instantiation seen from another translation unit is analysed there
+            if n.get("cdecl") is not None and fn.d.get("decl") is not None and n.get("cdecl") != fn.d.get("decl"):
+                continue
+            on_this = n.get("k") == "MCall" and (n.get("obj") is None or strip(n["obj"]).get("k") == "This") and g.cls == fn.cls
+            out.append((g, n, on_this))
+        return out
+
+    def all_functions(self):
+        seen = set()
+        for lst in self.by_full.values():
+            for f in lst:
+                if id(f) not in seen:
+                    seen.add(id(f))
+                    yield f
+
+    def is_helper(self, fn):
+        """non-virtual member function of a parser class that is only ever called on `this` by members of its class: it runs
+        only as part of the callbacks that call it (whole-program view of the analysed translation units)"""
+        key = id(fn)
+        memo = self.__dict__.setdefault("_helper", {})
+        if key not in memo:
+            ok = bool(fn.cls) and fn.cls in PARSER_CLS and not fn.d.get("virtual") and not fn.d.get("ctor") and not fn.d.get("dtor") \
+                and not fn.d.get("static") and fn.name not in PARSER_METHODS
+            if ok:
+                sites = self.callsites(fn)
+                ok = bool(sites) and all(t for _, _, t in sites)
+            memo[key] = ok
+        return memo[key]
+
+    def helpers_of(self, fn, depth=3):
+        """helpers (see is_helper) called, transitively, by fn on `this`"""
+        out, work, seen = [], [(fn, 0)], {id(fn)}
+        while work:
+            g, dep = work.pop()
+            for n in g.nodes():
+                if n.get("k") == "MCall" and (n.get("obj") is None or strip(n["obj"]).get("k") == "This"):
+                    h = self.resolve(n, g)
+                    if h is not None and id(h) not in seen and h.cfg is not None and self.is_helper(h) and dep < depth:
+                        seen.add(id(h))
+                        out.append(h)
+                        work.append((h, dep + 1))
+        return out
+
+    def entry_facts(self, fn):
+        """must-facts that hold whenever a helper is entered: the facts about fields of the object (and about local values handed
+        over as arguments, renamed to the parameters) that hold at every call site"""
+        memo = self.__dict__.setdefault("_entry", {})
+        key = id(fn)
+        if key in memo:
+            return memo[key]
+        memo[key] = set()          # recursion guard
+        if not self.is_helper(fn):
+            return memo[key]
+        out = None
+        for g, n, _ in self.callsites(fn):
+            fs = self.ecfg(g).facts_at(n)
+            if fs is None:
+                continue           # unreachable call site
+            ren = {}
+            for prm, a in zip(fn.params, n.get("a", [])):
+                sa = strip(a)
+                if sa is not None and sa.get("k") == "Ref" and sa.get("dk") in ("local", "param") and prm.get("n"):
+                    ren[sa["n"]] = prm["n"]
+            here = set()
+            for f in fs:
+                vs = f[4]
+                if not vs:
+                    continue
+                if all(v.startswith("@") for v in vs):
+                    here.add(f)
+                elif all(v.startswith("@") or v in ren for v in vs):
+                    r = rename_fact(f, ren)
+                    if r is not None:
+                        here.add(r)
+            out = here if out is None else (out & here)
+        memo[key] = out or set()
+        return memo[key]
+
+    def bind_helper_params(self):
+        """a helper with exactly one call site whose argument is an expression over fields only: the parameter stands for that
+        expression inside the helper (reference / pointer parameters are rewritten, scalar value parameters resolved like const locals)"""
+        for fn in list(self.all_functions()):
+            if fn.cfg is None or not fn.params or not self.is_helper(fn):
+                continue
+            sites = self.callsites(fn)
+            if len(sites) != 1:
+                continue
+            g, n, _ = sites[0]
+            bind = {}
+            for prm, a in zip(fn.params, n.get("a", [])):
+                vs = vars_of(a)
+                if vs and all(v.startswith("@") for v in vs) and "d" in prm:
+                    bind[prm["d"]] = a
+            if bind:
+                norm_c11.bind_params(fn, bind)
+
 
 WORLD = [None]     # the World of the current run (callee summaries for the must-facts transfer)
+
+
+def rename_fact(f, ren):
+    """fact with the local variables `ren` (caller name -> callee parameter name) renamed; None if a side is not a registered expression"""
+    import copy as _copy
+    sides = []
+    for sname in (f[1], f[2]):
+        if sname is None or re.fullmatch(r"-?\d+", sname):
+            sides.append(sname)
+            continue
+        node = REG.get(sname)
+        if node is None:
+            return None
+        c = _copy.deepcopy(node)
+        for x in walk(c):
+            if x.get("k") == "Ref" and x.get("dk") in ("local", "param") and x.get("n") in ren and "_init" not in x:
+                x["n"] = ren[x["n"]]
+                x["dk"] = "param"
+                x.pop("d", None)
+        sides.append(norm(c))
+    A, B = sides
+    if f[0] == "==" and B is not None:
+        A, B = sorted((A, B))
+    vs = frozenset(ren.get(v, v) for v in f[4])
+    sv = frozenset(ren.get(v, v) for v in f[5])
+    return (f[0], A, B, f[3], vs, sv)
 
 
 def rejecting_return(fn, n):
@@ -674,7 +815,7 @@ class ECFG:
     def solve(self):
         if self._in is not None:
             return self._in
-        IN = {self.entry: set()}
+        IN = {self.entry: set(WORLD[0].entry_facts(self.fn)) if WORLD[0] is not None else set()}
         work = [self.entry]
         it = 0
         while work:
@@ -940,6 +1081,14 @@ def this_counter(fn):
     return out
 
 
+def scope_counter(W, fn):
+    """counter increments in fn and in the helpers it calls: [(field, node, function)]"""
+    out = [(c, n, fn) for c, n in this_counter(fn)]
+    for h in W.helpers_of(fn):
+        out += [(c, n, h) for c, n in this_counter(h)]
+    return out
+
+
 def documented(classes):
     return all(c in DOC_EXC for c in classes) and len(classes) > 0
 
@@ -1108,6 +1257,20 @@ def guard_documented(W, e, kind, A, B, truth, depth=0):
     return res
 
 
+def guard_documented_up(W, fn, kind, A, B, truth, depth=0):
+    """guard_documented for a fact that may have been established by the callers of a helper (entry facts)"""
+    r = guard_documented(W, W.ecfg(fn), kind, A, B, truth)
+    if r is not None or depth > 3 or not W.is_helper(fn):
+        return r
+    res = None
+    for g, n, _ in W.callsites(fn):
+        r2 = guard_documented_up(W, g, kind, A, B, truth, depth + 1)
+        if not r2:
+            return r2 if res is None or r2 is False else res
+        res = True
+    return res
+
+
 def run(tier):
     ck = Check("C11", tier)
     declare_rules(ck)
@@ -1141,10 +1304,11 @@ def run(tier):
         ck.tu(fb)
     for fb in bases + [sfacts, gfacts, pfacts]:
         W.add(fb)
-    W.compute_neverret()
     pcs = parser_classes(facts)
     PARSER_CLS.clear()
     PARSER_CLS.update(pc.cls for pc in pcs)
+    W.bind_helper_params()
+    W.compute_neverret()
     WORLD[0] = W
     W.compute_modsets(frozenset({"FEAT::Xml::Scanner", "FEAT::Geometry::MeshFileReader"} | {pc.cls for pc in pcs}))
 
@@ -1201,27 +1365,30 @@ def rule_counter(ck, W, pcs):
         results_g, results_t = [], []
         for pc in insts:
             content, close = pc.m["content"], pc.m["close"]
-            ctrs = this_counter(content)
+            ctrs3 = scope_counter(W, content)
+            ctrs = [(c, n) for c, n, _ in ctrs3]
             if not ctrs:
                 continue
             if len({c for c, _ in ctrs}) != 1:
                 ck.incomplete("E7.counter-guard", "%s::content increments several fields %s" % (pc.cls, sorted({c for c, _ in ctrs})))
                 continue
             C = ctrs[0][0]
-            e = W.ecfg(content)
             limits = set()
             probs = []
             unk, cunk = [], []
-            # uses: the increment(s) and every subscript/call argument that mentions the counter
-            uses = [n for _, n in ctrs]
-            for n in content.nodes():
-                if n.get("k") == "Index" and ("@" + C) in vars_of(n["idx"]):
-                    uses.append(n)
-                elif n.get("k") == "OpCall" and n.get("op") in ("[]", "()") and any(("@" + C) in vars_of(a) for a in n.get("a", [])[1:]):
-                    uses.append(n)
-                elif n.get("k") == "MCall" and n.get("n") in ("operator()", "operator[]", "at") and any(("@" + C) in vars_of(a) for a in n.get("a", [])):
-                    uses.append(n)
-            for u in uses:
+            # uses: the increment(s) and every subscript/call argument that mentions the counter, in content() and in the private
+            # helpers it calls (their entry facts are the facts of the call sites)
+            uses = [(n, g) for _, n, g in ctrs3]
+            for g in [content] + W.helpers_of(content):
+                for n in g.nodes():
+                    if n.get("k") == "Index" and ("@" + C) in vars_of(n["idx"]):
+                        uses.append((n, g))
+                    elif n.get("k") == "OpCall" and n.get("op") in ("[]", "()") and any(("@" + C) in vars_of(a) for a in n.get("a", [])[1:]):
+                        uses.append((n, g))
+                    elif n.get("k") == "MCall" and n.get("n") in ("operator()", "operator[]", "at") and any(("@" + C) in vars_of(a) for a in n.get("a", [])):
+                        uses.append((n, g))
+            for u, ug in uses:
+                e = W.ecfg(ug)
                 fs = e.facts_at(u)
                 if fs is None:
                     continue    # unreachable
@@ -1241,7 +1408,7 @@ def rule_counter(ck, W, pcs):
                 for fa in g:
                     limits.add(fa[2])
                     orig = guard_origin(e, "<", C, fa[2], True)
-                    ok = guard_documented(W, e, "<", C, fa[2], True)
+                    ok = guard_documented_up(W, ug, "<", C, fa[2], True)
                     if not ok:
                         probs.append("line %s: the `%s >= %s` edge does not end in a documented Xml::*Error throw (%s)" % (
                             u.get("l"), C, fa[2], ";".join(",".join(e.throw_classes_from(o)) or "falls through" for _, o in orig) or "established by an assertion"))
@@ -1604,6 +1771,109 @@ def reader_functions(facts):
 
 def rule_tokens(ck, W, facts):
     seen = {}
+
+    def analyse(f, name, from_line, rec, key, depth):
+        """accesses of the token deque `name` (local or, in a helper, reference parameter) in f"""
+        e = W.ecfg(f)
+        # does the deque leave the modelled uses (own size/element accessors, begin/end, range-for, private helpers)?
+        escapes = []
+        iters = {}
+        for x in f.nodes():
+            if x.get("k") == "Ref" and x.get("n") == name and x.get("dk") in ("local", "param"):
+                par_ = e.parent(x)
+                while par_ is not None and par_.get("k") == "Cast":
+                    par_ = e.parent(par_)
+                if par_ is None:
+                    continue
+                if par_.get("k") == "MCall" and strip(par_.get("obj")) is x:
+                    if par_.get("n") in ("size", "empty", "at", "front", "back", "operator[]", "begin", "end", "cbegin", "cend"):
+                        if par_.get("n") in ("begin", "cbegin"):
+                            v_ = e.parent(par_)
+                            while v_ is not None and v_.get("k") in ("Cast", "Construct", "TempObj"):
+                                v_ = e.parent(v_)
+                            if v_ is not None and v_.get("k") == "Var":
+                                iters[v_["n"]] = v_
+                        continue
+                if par_.get("k") == "OpCall" and par_.get("op") == "[]" and strip(par_["a"][0]) is x:
+                    continue
+                if par_.get("k") in ("ForRange", "Var", "Decl"):
+                    continue
+                if par_.get("k") == "MCall" and (par_.get("obj") is None or strip(par_["obj"]).get("k") == "This") and depth < 3:
+                    # handed to a private helper of the class by reference: the helper's accesses are analysed with the facts of
+                    # this call site (renamed to its parameter)
+                    h = W.resolve(par_, f)
+                    pos = [i for i, a in enumerate(par_.get("a", [])) if strip(a) is x]
+                    if h is not None and h.cfg is not None and W.is_helper(h) and len(pos) == 1 and pos[0] < len(h.params) and h.params[pos[0]].get("n"):
+                        pt = (h.type(h.params[pos[0]].get("t")) or "").strip()
+                        if pt.endswith("&") and not pt.endswith("&&"):
+                            analyse(h, h.params[pos[0]]["n"], from_line, rec, key, depth + 1)
+                            continue
+                escapes.append(render(par_)[:50])
+        for itn, itv in iters.items():
+            for x in f.nodes():
+                if x.get("k") == "OpCall" and x.get("op") in ("->", "*") and len(x.get("a", [])) == 1 and strip(x["a"][0]).get("k") == "Ref" and strip(x["a"][0])["n"] == itn:
+                    rec["acc"] += 1
+                    fs_ = e.facts_at(x) or set()
+                    a_, b_ = sorted((itn, "%s.end()" % name))
+                    if not find_fact(fs_, "==", A=a_, B=b_, truth=False):
+                        rec["unk"].append("line %s: token reached through iterator `%s` without a dominating `%s != %s.end()`; counting iterators is not modelled" % (x.get("l"), itn, itn, name))
+        size_s = "%s.size()" % name
+        for n in f.nodes():
+            acc = None
+            if n.get("k") == "MCall" and n.get("n") in ("at", "front", "back", "operator[]"):
+                o = strip(n.get("obj"))
+                if o is not None and o.get("k") == "Ref" and o.get("n") == name:
+                    acc = n
+                    arg = n.get("a", [None])[0] if n.get("n") in ("at", "operator[]") else None
+            elif n.get("k") == "OpCall" and n.get("op") == "[]":
+                o = strip(n["a"][0])
+                if o is not None and o.get("k") == "Ref" and o.get("n") == name:
+                    acc = n
+                    arg = n["a"][1]
+            if acc is None:
+                continue
+            rec["acc"] += 1
+            fs = e.facts_at(acc)
+            if fs is None:
+                continue
+            fs = set(fs)
+            sizefacts = [x for x in fs if size_s in (x[1], x[2])]
+            if from_line:
+                # scanner contract (rule E7.scanner-nonempty-line): content lines are trimmed and non-empty
+                fs.add(("<", "0", size_s, True, frozenset(), frozenset()))
+            elif not sizefacts:
+                if escapes:
+                    rec["unk"].append("line %s: no check of %s seen before `%s`, but the deque is handed to %s" % (acc.get("l"), size_s, render(acc)[:40], escapes))
+                else:
+                    rec["probs"].append("line %s: `%s` without any dominating check of %s" % (acc.get("l"), render(acc)[:60], size_s))
+                continue
+            REG.setdefault(size_s, {"k": "Ref", "n": size_s, "dk": "local"})
+            sz = REG[size_s]
+            try:
+                if acc.get("n") == "front":
+                    wit, nok = small_model(fs, 0, sz)
+                elif acc.get("n") == "back":
+                    wit, nok = small_model(fs, {"k": "Bin", "op": "-", "lhs": sz, "rhs": {"k": "Int", "v": "1"}}, sz)
+                else:
+                    wit, nok = small_model(fs, arg, sz)
+            except Unknown as ex:
+                ck.incomplete("E7.token-guard", "%s line %s: cannot evaluate `%s` (%s)" % (key, acc.get("l"), render(acc)[:60], ex))
+                continue
+            if wit is not None:
+                sus = suspects(W, e, acc, set(wit[0]) | {name})
+                if escapes or sus:
+                    rec["unk"].append("line %s: `%s` not provably in range, but %s may restrict it" % (acc.get("l"), render(acc)[:40], escapes or sus))
+                else:
+                    rec["probs"].append("line %s: `%s` can be out of range: %s" % (acc.get("l"), render(acc)[:60], fmt_witness(wit)))
+            elif nok == 0:
+                ck.incomplete("E7.token-guard", "%s line %s: no consistent assignment in the bounded model for `%s`" % (key, acc.get("l"), render(acc)[:60]))
+            # the size check must reject with a documented exception
+            for sf in sizefacts:
+                orig = [o for _, o in guard_origin(e, sf[0], sf[1], sf[2], sf[3]) if e.only_throws_from(o)]
+                if orig and f.name in PARSER_METHODS and not any(documented(e.throw_classes_from(o)) for o in orig):
+                    rec["probs"].append("line %s: the size check on %s does not reject with a documented Xml::*Error" % (acc.get("l"), name))
+        return escapes
+
     for f in reader_functions(facts):
         decls = {}
         for n in f.nodes():
@@ -1613,102 +1883,17 @@ def rule_tokens(ck, W, facts):
                     decls[n["n"]] = (n, i)
         if not decls:
             continue
-        e = W.ecfg(f)
         for name, (var, init) in decls.items():
             key = "%s::%s/%s" % (short(f.cls), f.name, name)
             rec = seen.setdefault(key, {"probs": [], "unk": [], "fn": f, "line": var.get("l") or init.get("l"), "n": 0, "acc": 0})
             rec["n"] += 1
-            # does the deque leave the modelled uses (own size/element accessors, begin/end, range-for)?
-            escapes = []
-            iters = {}
-            for x in f.nodes():
-                if x.get("k") == "Ref" and x.get("n") == name and x.get("dk") == "local":
-                    par_ = e.parent(x)
-                    while par_ is not None and par_.get("k") == "Cast":
-                        par_ = e.parent(par_)
-                    if par_ is None:
-                        continue
-                    if par_.get("k") == "MCall" and strip(par_.get("obj")) is x:
-                        if par_.get("n") in ("size", "empty", "at", "front", "back", "operator[]", "begin", "end", "cbegin", "cend"):
-                            if par_.get("n") in ("begin", "cbegin"):
-                                v_ = e.parent(par_)
-                                while v_ is not None and v_.get("k") in ("Cast", "Construct", "TempObj"):
-                                    v_ = e.parent(v_)
-                                if v_ is not None and v_.get("k") == "Var":
-                                    iters[v_["n"]] = v_
-                            continue
-                    if par_.get("k") == "OpCall" and par_.get("op") == "[]" and strip(par_["a"][0]) is x:
-                        continue
-                    if par_.get("k") in ("ForRange", "Var", "Decl"):
-                        continue
-                    escapes.append(render(par_)[:50])
-            for itn, itv in iters.items():
-                for x in f.nodes():
-                    if x.get("k") == "OpCall" and x.get("op") in ("->", "*") and len(x.get("a", [])) == 1 and strip(x["a"][0]).get("k") == "Ref" and strip(x["a"][0])["n"] == itn:
-                        rec["acc"] += 1
-                        fs_ = e.facts_at(x) or set()
-                        a_, b_ = sorted((itn, "%s.end()" % name))
-                        if not find_fact(fs_, "==", A=a_, B=b_, truth=False):
-                            rec["unk"].append("line %s: token reached through iterator `%s` without a dominating `%s != %s.end()`; counting iterators is not modelled" % (x.get("l"), itn, itn, name))
             src = strip(init.get("obj"))
             from_line = (f.name == "content" and src is not None and src.get("k") == "Ref" and src.get("dk") == "param"
                          and len(f.params) >= 2 and src.get("n") == f.params[1]["n"])
-            size_s = "%s.size()" % name
-            for n in f.nodes():
-                acc = None
-                if n.get("k") == "MCall" and n.get("n") in ("at", "front", "back", "operator[]"):
-                    o = strip(n.get("obj"))
-                    if o is not None and o.get("k") == "Ref" and o.get("n") == name:
-                        acc = n
-                        arg = n.get("a", [None])[0] if n.get("n") in ("at", "operator[]") else None
-                elif n.get("k") == "OpCall" and n.get("op") == "[]":
-                    o = strip(n["a"][0])
-                    if o is not None and o.get("k") == "Ref" and o.get("n") == name:
-                        acc = n
-                        arg = n["a"][1]
-                if acc is None:
-                    continue
-                rec["acc"] += 1
-                fs = e.facts_at(acc)
-                if fs is None:
-                    continue
-                fs = set(fs)
-                extra = {}
-                sizefacts = [x for x in fs if size_s in (x[1], x[2])]
-                if from_line:
-                    # scanner contract (rule E7.scanner-nonempty-line): content lines are trimmed and non-empty
-                    fs.add(("<", "0", size_s, True, frozenset(), frozenset()))
-                elif not sizefacts:
-                    if escapes:
-                        rec["unk"].append("line %s: no check of %s seen before `%s`, but the deque is handed to %s" % (acc.get("l"), size_s, render(acc)[:40], escapes))
-                    else:
-                        rec["probs"].append("line %s: `%s` without any dominating check of %s" % (acc.get("l"), render(acc)[:60], size_s))
-                    continue
-                REG.setdefault(size_s, {"k": "Ref", "n": size_s, "dk": "local"})
-                sz = REG[size_s]
-                try:
-                    if acc.get("n") == "front":
-                        wit, nok = small_model(fs, 0, sz)
-                    elif acc.get("n") == "back":
-                        wit, nok = small_model(fs, {"k": "Bin", "op": "-", "lhs": sz, "rhs": {"k": "Int", "v": "1"}}, sz)
-                    else:
-                        wit, nok = small_model(fs, arg, sz)
-                except Unknown as ex:
-                    ck.incomplete("E7.token-guard", "%s line %s: cannot evaluate `%s` (%s)" % (key, acc.get("l"), render(acc)[:60], ex))
-                    continue
-                if wit is not None:
-                    sus = suspects(W, e, acc, set(wit[0]) | {name})
-                    if escapes or sus:
-                        rec["unk"].append("line %s: `%s` not provably in range, but %s may restrict it" % (acc.get("l"), render(acc)[:40], escapes or sus))
-                    else:
-                        rec["probs"].append("line %s: `%s` can be out of range: %s" % (acc.get("l"), render(acc)[:60], fmt_witness(wit)))
-                elif nok == 0:
-                    ck.incomplete("E7.token-guard", "%s line %s: no consistent assignment in the bounded model for `%s`" % (key, acc.get("l"), render(acc)[:60]))
-                # the size check must reject with a documented exception
-                for sf in sizefacts:
-                    orig = [o for _, o in guard_origin(e, sf[0], sf[1], sf[2], sf[3]) if e.only_throws_from(o)]
-                    if orig and f.name in PARSER_METHODS and not any(documented(e.throw_classes_from(o)) for o in orig):
-                        rec["probs"].append("line %s: the size check on %s does not reject with a documented Xml::*Error" % (acc.get("l"), name))
+            acc0 = rec["acc"]
+            esc = analyse(f, name, from_line, rec, key, 0)
+            if rec["acc"] == acc0 and esc:
+                rec["unk"].append("no token access seen, the deque is only handed to %s" % esc)
     for key, rec in sorted(seen.items()):
         if rec["unk"] and not rec["probs"]:
             undecided(ck, "E7.token-guard", key, "; ".join(sorted(set(rec["unk"]))))
@@ -2131,13 +2316,13 @@ def rule_counter_extent(ck, W, pcs, facts, limits):
     seen = {}
     for pc in pcs:
         content = pc.m["content"]
-        ctrs = this_counter(content)
+        ctrs = scope_counter(W, content)
         if not ctrs:
             continue
         C = ctrs[0][0]
         lims = limits.get(pc.cls) or []
         cfs = cfs_all.get(pc.cls, [])
-        for n in content.nodes():
+        for n, nfn in [(x, g) for g in [content] + W.helpers_of(content) for x in g.nodes()]:
             exp = None
             what = None
             if n.get("k") == "OpCall" and n.get("op") == "[]" and len(n.get("a", [])) == 2 and norm(n["a"][1]) == C:
@@ -2145,8 +2330,11 @@ def rule_counter_extent(ck, W, pcs, facts, limits):
                     if re.match(rx, n.get("callee") or ""):
                         exp = "%s.%s()" % (norm(n["a"][0]), acc)
                         what = norm(n["a"][0])
-            elif n.get("k") == "MCall" and n.get("n") == "operator()" and re.match(r"FEAT::Geometry::AttributeSet<", n.get("ccls") or "") and n.get("a") and norm(n["a"][0]) == C:
-                fld = root_var(n.get("obj"))
+            elif ((n.get("k") == "MCall" and n.get("n") == "operator()" and n.get("a") and norm(n["a"][0]) == C) or
+                  (n.get("k") == "OpCall" and n.get("op") == "()" and len(n.get("a", [])) >= 2 and norm(n["a"][1]) == C)) \
+                    and re.match(r"FEAT::Geometry::AttributeSet<", n.get("ccls") or n.get("callee") or ""):
+                # attribute value (counter, j): member-call spelling `_attrib->operator()(c, j)` or call spelling `(*_attrib)(c, j)` / `alias(c, j)`
+                fld = root_var(n.get("obj") if n.get("k") == "MCall" else n["a"][0])
                 what = fld
                 exp = ("?", "no `%s.reset(new AttributeSet(n, dim))` found" % fld)
                 for g in cfs:
@@ -2158,7 +2346,8 @@ def rule_counter_extent(ck, W, pcs, facts, limits):
                                 if cs and cs[0].get("a"):
                                     exp = norm(cs[0]["a"][0])
                                     # second index: bounded by the dimension the set was created with
-            elif n.get("k") == "Index" and ("@" + C) in vars_of(n["idx"]) and is_this_field(n["b"]):
+            elif n.get("k") == "Index" and ("@" + C) in vars_of(n["idx"]) and is_this_field(n["b"]) and not n.get("_addr_of_alias"):
+                # (`T* const p = &field[e];` only forms an address: the accesses are the uses of p, rewritten by lib/norm_c11.py)
                 fld = strip(n["b"])["n"]
                 what = fld
                 exp = ("?", "no assignment `%s = X.get_indices()` found" % fld)
@@ -2170,7 +2359,7 @@ def rule_counter_extent(ck, W, pcs, facts, limits):
                     ops = [norm(mul["lhs"]), norm(mul["rhs"])]
                     if C in ops:
                         S = ops[1 - ops.index(C)]
-                        fs = W.ecfg(content).facts_at(n) or set()
+                        fs = W.ecfg(nfn).facts_at(n) or set()
                         stride_form = bool(find_fact(fs, "<", A=norm(idx["rhs"]), B=S, truth=True))
                 exps = []
                 for g, rhs in field_assignments(cfs, fld):
@@ -2890,32 +3079,39 @@ def writer_tree(W, ck, entry):
     return tp
 
 
+def name_tags(fs, name_param):
+    """tag names X with the must-fact `name == "X"` in fs"""
+    out = set()
+    for f in fs or ():
+        if f[0] == "==" and f[3] and f[2] is not None:
+            for a_, b_ in ((f[1], f[2]), (f[2], f[1])):
+                if a_ == name_param and len(b_) >= 2 and b_[0] == '"' and b_[-1] == '"':
+                    out.add(b_[1:-1])
+    return out
+
+
 def reader_children(W, pc_by_cls, fn, name_param=None, depth=0):
-    """{tag name: parser class string} accepted by a markup() body (delegations followed)"""
+    """{tag name: parser class string} accepted by a markup() body (delegations followed).  A child parser is accepted for tag X
+    if it is constructed (std::make_shared) where `name == "X"` is a must-fact - whatever the spelling of the dispatch
+    (if / else-if chain, negated test with early return, nested ifs).  A construction that is not tied to a tag name is kept
+    under the key '?' (dispatch not understood: the caller must not conclude that a tag is rejected)."""
     out = {}
     if name_param is None:
         name_param = fn.params[2]["n"] if len(fn.params) >= 3 else None
-    unknown = []
-
-    def made_class(sub):
-        for c in walk(sub):
+    if fn.cfg is not None and name_param is not None:
+        e = W.ecfg(fn)
+        for c in fn.nodes():
             if c.get("k") == "Call" and c.get("callee") == "std::make_shared":
-                return first_targ(c.get("cfull") or "")
-        return None
-
-    for n in fn.nodes():
-        if n.get("k") == "If":
-            c = cmp_parts(n["c"]) if strip(n["c"]).get("k") in ("OpCall", "Bin") else None
-            if c and c[0] == "==":
-                l, r = strip(c[1]), strip(c[2])
-                nm = None
-                if l.get("k") == "Ref" and l.get("n") == name_param and str_value(r) is not None:
-                    nm = str_value(r)
-                elif r.get("k") == "Ref" and r.get("n") == name_param and str_value(l) is not None:
-                    nm = str_value(l)
-                if nm is not None:
-                    cls = made_class(n.get("then"))
-                    out[nm] = cls
+                tags = name_tags(e.facts_at(c), name_param)
+                cls = first_targ(c.get("cfull") or "")
+                if tags:
+                    for t in tags:
+                        # several constructions under one tag (real parser / Xml::DummyParser when the caller is not interested):
+                        # the first real parser class in source order decides, as the vocabulary is matched against it
+                        if t not in out or (out[t] or "").startswith("FEAT::Xml::DummyParser"):
+                            out[t] = cls
+                elif e.facts_at(c) is not None:
+                    out.setdefault("?", cls)
     # delegation: a call that receives the name parameter
     for n in fn.nodes():
         if n.get("k") in ("Call", "MCall") and n.get("callee") != "std::make_shared":
@@ -3372,10 +3568,12 @@ def rule_vocabulary(ck, W, facts, pcs):
                 if ch.name not in kids:
                     mk = pc.m["markup"]
                     nonnull = [x for x in mk.nodes() if x.get("k") == "Return" and not any(y.get("k") == "Null" for y in walk(x))]
-                    if not kids and nonnull:
+                    if "?" in kids:
+                        voc_unk.setdefault(cp, []).append("%s::markup() constructs a child parser (%s) that is not tied to a `name == \"...\"` test: the dispatch is not understood" % (pc.short, short(kids["?"] or "?")))
+                    elif not kids and nonnull:
                         voc_unk.setdefault(cp, []).append("%s::markup() returns child parsers but no `name == \"...\"` dispatch was recognised" % pc.short)
                     else:
-                        voc[cp].append("writer emits <%s> inside <%s> but %s::markup() accepts only %s" % (ch.name, tag.name, pc.short, sorted(kids)))
+                        voc[cp].append("writer emits <%s> inside <%s> but %s::markup() accepts only %s" % (ch.name, tag.name, pc.short, sorted(k_ for k_ in kids if k_ != "?")))
                     match(ch, cp, None, False)
                 else:
                     match(ch, cp, kids[ch.name], True)
@@ -3966,15 +4164,29 @@ MANDATORY_CHILDREN = [
 
 
 def branch_for_name(fn, tag):
+    """the statements of markup() that are executed only for `name == tag` (as a synthetic block): every CFG element for which
+    the equality is a must-fact - independent of how the dispatch is spelled"""
     name_param = fn.params[2]["n"] if len(fn.params) >= 3 else None
-    for n in fn.nodes():
-        if n.get("k") == "If":
-            c = cmp_parts(n["c"]) if strip(n["c"]).get("k") in ("OpCall", "Bin") else None
-            if c and c[0] == "==":
-                for x, y in ((c[1], c[2]), (c[2], c[1])):
-                    if strip(x).get("k") == "Ref" and strip(x).get("n") == name_param and str_value(y) == tag:
-                        return n.get("then")
-    return None
+    W = WORLD[0]
+    if fn.cfg is None or name_param is None or W is None:
+        return None
+    e = W.ecfg(fn)
+    IN = e.solve()
+    stmts = []
+    for b, el in e.el.items():
+        if b not in IN:
+            continue
+        facts = set(IN[b])
+        for sid in el:
+            n = fn.by_id(sid)
+            if n is None:
+                continue
+            if tag in name_tags(facts, name_param):
+                stmts.append(n)
+            facts = e._transfer_stmt(facts, n)
+    if not stmts:
+        return None
+    return {"k": "Block", "s": stmts}
 
 
 def recorded_members(W, fn, sub):
@@ -4332,6 +4544,137 @@ def loop_header(n):
     return v["n"], int(i0["v"]), c["rhs"], c["op"] == "<="
 
 
+def _int_lit(n):
+    n = strip(n)
+    while n is not None and n.get("k") in ("Construct", "TempObj") and len(n.get("a", [])) == 1:
+        n = strip(n["a"][0])
+    if n is not None and n.get("k") == "Int":
+        return int(n["v"])
+    return None
+
+
+def _unit_step(x, name):
+    """+1 / -1 if statement x advances the local `name` by one"""
+    x = strip(x)
+    if x is None:
+        return 0
+    if x.get("k") == "Un" and x.get("op") in ("++", "--") and strip(x["e"]).get("k") == "Ref" and strip(x["e"]).get("n") == name and "_init" not in x["e"]:
+        return 1 if x["op"] == "++" else -1
+    if x.get("k") == "Assign" and x.get("op") in ("+=", "-=") and strip(x["lhs"]).get("k") == "Ref" and strip(x["lhs"]).get("n") == name and _int_lit(x["rhs"]) == 1:
+        return 1 if x["op"] == "+=" else -1
+    return 0
+
+
+def _modifies_local(body, name, skip=None):
+    for r in walk(body):
+        if r is skip:
+            continue
+        if r.get("k") in ("Assign", "Un") and r.get("op") in ("=", "+=", "-=", "*=", "/=", "++", "--") and root_var(r.get("lhs") or r.get("e")) == name:
+            return True
+    return False
+
+
+def counted_loops(f, e):
+    """the counted loops of f in one form: dict(node, iv, lo, bound (node), incl, body, at (node whose facts describe the loop entry),
+    extra (facts that hold in the body by the loop form), kind).  In iteration order the variable iv takes the values
+    lo, lo+1, ... < bound (<= if incl); `down` loops take them in the reverse order."""
+    out = []
+    for loop in f.nodes():
+        k = loop.get("k")
+        if k == "For":
+            hd = loop_header(loop)
+            if hd is not None:
+                out.append({"node": loop, "iv": hd[0], "lo": hd[1], "bound": hd[2], "incl": hd[3], "body": loop.get("body"), "at": loop["init"], "extra": set(), "kind": "for"})
+                continue
+            # for(T i(B); i > c; --i)   /   i >= c   /   i != c : i runs B, B-1, ..., c+1 (c for >=)
+            init, c, inc = loop.get("init"), strip(loop.get("c")), loop.get("inc")
+            if init is not None and init.get("k") == "Decl" and len(init.get("vars", [])) == 1 and c is not None and c.get("k") == "Bin" and c["op"] in (">", ">=", "!="):
+                v = init["vars"][0]
+                cl = _int_lit(c["rhs"])
+                if strip(c["lhs"]).get("k") == "Ref" and strip(c["lhs"]).get("n") == v["n"] and cl is not None and v.get("init") is not None \
+                   and _unit_step(inc, v["n"]) == -1 and not _modifies_local(loop.get("body"), v["n"]) and v["n"] not in vars_of(v["init"]):
+                    B = v["init"]
+                    if c["op"] == "!=" and cl != 0:
+                        continue
+                    lo = cl if c["op"] == ">=" else cl + 1
+                    bvars = vars_of(B)
+                    stable = not any(kl.rstrip("~") in bvars or kl == "@*" for x in walk(loop.get("body")) if x.get("k") in ("Assign", "Un") or is_call(x) for kl in e._kills(x))
+                    extra = set()
+                    if stable:
+                        # inside the body i <= B (i starts at B and only decreases)
+                        extra.add(("<", norm(B), v["n"], False, frozenset(bvars | {v["n"]}), shape_vars(B)))
+                        REG.setdefault(v["n"], {"k": "Ref", "n": v["n"], "dk": "local"})
+                    out.append({"node": loop, "iv": v["n"], "lo": lo, "bound": B, "incl": True, "body": loop.get("body"), "at": init, "extra": extra, "kind": "down"})
+            continue
+        if k == "While":
+            # T i(lo); ... while(i < B) { ...; ++i; }  (the step is the last statement of the body, no continue skips it)
+            c, body = strip(loop.get("c")), loop.get("body")
+            if c is None or c.get("k") != "Bin" or c["op"] not in ("<", "<=", "!=") or body is None or body.get("k") != "Block" or not body.get("s"):
+                continue
+            lhs = strip(c["lhs"])
+            if lhs.get("k") != "Ref" or lhs.get("dk") != "local" or "_init" in c["lhs"]:
+                continue
+            iv = lhs["n"]
+            last = body["s"][-1]
+            if _unit_step(last, iv) != 1 or iv in vars_of(c["rhs"]):
+                continue
+            if any(x.get("k") == "Continue" for x in walk(body, prune=lambda y: y.get("k") in ("For", "While", "Do", "ForRange"))):
+                continue
+            if _modifies_local(body, iv, skip=strip(last)):
+                continue
+            # the declaration: closest preceding statement of the enclosing block, nothing in between touches the variable
+            blk = e.parent(loop)
+            decl = None
+            if blk is not None and blk.get("k") == "Block":
+                sts = blk.get("s", [])
+                pos = [i for i, x in enumerate(sts) if x is loop]
+                if pos:
+                    for x in reversed(sts[:pos[0]]):
+                        if x.get("k") == "Decl" and any(v.get("n") == iv for v in x.get("vars", [])):
+                            decl = x
+                            break
+                        if iv in vars_of(x):
+                            break
+            if decl is None:
+                continue
+            v = [v for v in decl["vars"] if v.get("n") == iv][0]
+            lo = _int_lit(v.get("init"))
+            if lo is None or (c["op"] == "!=" and lo != 0):
+                continue
+            out.append({"node": loop, "iv": iv, "lo": lo, "bound": c["rhs"], "incl": c["op"] == "<=", "body": {"k": "Block", "s": body["s"][:-1]}, "at": decl, "extra": set(), "kind": "while"})
+            continue
+        if k == "ForRange":
+            # for(x : V) with a running counter `k(0)` declared right in front and advanced by one at the end of the body:
+            # in the body k is the number of the entry visited, k < V.size()
+            rng, body = loop.get("range"), loop.get("body")
+            if rng is None or body is None or body.get("k") != "Block" or not body.get("s"):
+                continue
+            blk = e.parent(loop)
+            if blk is None or blk.get("k") != "Block":
+                continue
+            sts = blk.get("s", [])
+            pos = [i for i, x in enumerate(sts) if x is loop]
+            last = body["s"][-1]
+            if not pos or pos[0] == 0:
+                continue
+            prev = sts[pos[0] - 1]
+            if prev.get("k") != "Decl" or len(prev.get("vars", [])) != 1:
+                continue
+            v = prev["vars"][0]
+            if _int_lit(v.get("init")) != 0 or _unit_step(last, v["n"]) != 1 or _modifies_local(body, v["n"], skip=strip(last)):
+                continue
+            if any(x.get("k") == "Continue" for x in walk(body, prune=lambda y: y.get("k") in ("For", "While", "Do", "ForRange"))):
+                continue
+            szn = {"k": "MCall", "n": "size", "obj": rng, "a": [], "cconst": True, "ccls": "std::"}
+            extra = {("<", v["n"], norm(szn), True, frozenset(vars_of(rng) | {v["n"]}), shape_vars(szn))}
+            REG.setdefault(v["n"], {"k": "Ref", "n": v["n"], "dk": "local"})
+            out.append({"node": loop, "iv": v["n"], "lo": 0, "bound": szn, "incl": False, "body": {"k": "Block", "s": body["s"][:-1]}, "at": prev, "extra": extra, "kind": "range-counter"})
+    return out
+
+
+WHOLE_RANGE_ALGOS = ("std::find", "std::find_if", "std::find_if_not", "std::any_of", "std::all_of", "std::none_of", "std::count", "std::count_if")
+
+
 def rule_loop_range(ck, W, pcs, facts):
     cfs_all = class_functions(facts)
     all_parser_fns = [g for pc in pcs for g in cfs_all.get(pc.cls, [])]
@@ -4342,24 +4685,41 @@ def rule_loop_range(ck, W, pcs, facts):
         for f in sorted(cfs, key=lambda g: g.full):
             if f.cfg is None or f.d.get("ctor") or f.d.get("dtor"):
                 continue
-            e = None
-            for loop in f.nodes():
-                if loop.get("k") != "For":
+            e = W.ecfg(f)
+            # loops that visit every entry by construction: range-for over the container, standard algorithms over [begin, end)
+            for x in f.nodes():
+                V = None
+                if x.get("k") == "ForRange" and is_this_field(x.get("range")) and re.match(r"(const )?std::(deque|vector|array)", f.ntype(strip(x["range"])) or ""):
+                    uses_var = any(y.get("k") == "Ref" and y.get("d") == (x.get("var") or {}).get("d") for y in walk(x.get("body")))
+                    if uses_var:
+                        V = strip(x["range"])["n"]
+                elif x.get("k") == "Call" and x.get("callee") in WHOLE_RANGE_ALGOS and len(x.get("a", [])) >= 2:
+                    a0, a1 = strip(x["a"][0]), strip(x["a"][1])
+                    if a0.get("k") == "MCall" and a0.get("n") in ("begin", "cbegin") and is_this_field(a0.get("obj")) and re.match(r"std::(deque|vector|array)", a0.get("ccls") or ""):
+                        V = strip(a0["obj"])["n"]
+                        if not (a1.get("k") == "MCall" and a1.get("n") in ("end", "cend") and is_this_field(a1.get("obj")) and strip(a1["obj"])["n"] == V):
+                            key = "%s::%s/%s[i]" % (pc.short, f.name, V)
+                            rec = seen.setdefault(key, {"probs": [], "fn": f, "line": x.get("l"), "n": 0})
+                            rec["n"] += 1
+                            rec.setdefault("unk", []).append("`%s` searches a sub-range of %s; whether it ends at %s.end() is not decided" % (render(x)[:50], V, V))
+                            continue
+                if V is None:
                     continue
-                hd = loop_header(loop)
-                if hd is None:
-                    continue
-                iv, lo, bnode, incl = hd
+                key = "%s::%s/%s[i]" % (pc.short, f.name, V)
+                rec = seen.setdefault(key, {"probs": [], "fn": f, "line": x.get("l"), "n": 0})
+                rec["n"] += 1
+            for lp in counted_loops(f, e):
+                loop, iv, lo, bnode, incl = lp["node"], lp["iv"], lp["lo"], lp["bound"], lp["incl"]
                 # accesses of field containers subscripted with the loop variable
                 tested = set()
-                for x in walk(loop.get("body")):
+                for x in walk(lp["body"]):
                     if x.get("k") == "If":
                         for y in walk(x["c"]):
                             c = cmp_parts(y) if y.get("k") in ("Bin", "OpCall") else None
                             if c:
                                 tested.add(id(strip(c[1])))
                                 tested.add(id(strip(c[2])))
-                for x in walk(loop.get("body")):
+                for x in walk(lp["body"]):
                     cont = idx = None
                     if x.get("k") == "MCall" and x.get("n") in ("at", "operator[]") and x.get("a") and re.match(r"std::(deque|vector|array)", x.get("ccls") or ""):
                         cont, idx = x.get("obj"), x["a"][0]
@@ -4368,8 +4728,17 @@ def rule_loop_range(ck, W, pcs, facts):
                     if cont is None or not is_this_field(cont) or iv not in vars_of(idx):
                         continue
                     V = strip(cont)["n"]
-                    e = e or W.ecfg(f)
-                    key = "%s::%s/%s[%s]" % (pc.short, f.name, V, norm(idx).replace(iv, "i"))
+                    # the entry visited in iteration iv is iv + shift
+                    nidx = norm(idx)
+                    shift = 0 if nidx == iv else None
+                    sidx = strip(idx)
+                    if shift is None and sidx.get("k") == "Bin" and sidx["op"] in ("+", "-") and norm(sidx["lhs"]) == iv and _int_lit(sidx["rhs"]) is not None:
+                        shift = _int_lit(sidx["rhs"]) * (1 if sidx["op"] == "+" else -1)
+                    if lp["kind"] == "down" and shift is not None:
+                        keyidx = "i" if shift == -1 else nidx.replace(iv, "i")        # for(i = n; i > 0; --i) V[i-1] is the loop over V[i]
+                    else:
+                        keyidx = nidx.replace(iv, "i")
+                    key = "%s::%s/%s[%s]" % (pc.short, f.name, V, keyidx)
                     rec = seen.setdefault(key, {"probs": [], "fn": f, "line": x.get("l"), "n": 0})
                     rec["n"] += 1
                     size_s = "%s.size()" % V
@@ -4382,7 +4751,7 @@ def rule_loop_range(ck, W, pcs, facts):
                     if fs is None:
                         continue
                     try:
-                        wit, nok = small_model(set(fs) | inv, idx, REG[size_s])
+                        wit, nok = small_model(set(fs) | inv | lp["extra"], idx, REG[size_s])
                     except Unknown as ex:
                         ck.incomplete("E2.loop-range", "%s: cannot evaluate `%s` (%s)" % (key, render(x)[:50], ex))
                         continue
@@ -4394,11 +4763,21 @@ def rule_loop_range(ck, W, pcs, facts):
                             first_targ(pc.cls) or "", render(x)[:40], iv, "<=" if incl else "<", render(bnode)[:40], fmt_witness(wit)))
                         continue
                     # coverage: a loop that tests V[i] in a rejecting/flagging condition has to visit every entry of V
-                    if id(x) in tested and norm(idx) == iv and lo == 0:
-                        bn = bnode if not incl else {"k": "Bin", "op": "+", "lhs": bnode, "rhs": {"k": "Int", "v": "1"}}
+                    if id(x) in tested and shift is not None and shift == (-1 if lp["kind"] == "down" else 0) and lo + shift > 0 and lp["kind"] != "for":
+                        # (forms introduced by a restructured loop: while / count-down / running counter; a plain for loop that
+                        # starts above 0 is taken as intended, as before)
+                        rec["probs"].append("[%s] the loop tests `%s` but starts with entry %d: the entries below are never tested, a missing block of that dimension is accepted" % (
+                            first_targ(pc.cls) or "", render(x)[:40], lo + shift))
+                        continue
+                    if id(x) in tested and shift is not None and lo + shift == 0 and shift == (-1 if lp["kind"] == "down" else 0):
+                        # entries visited: [0, bound + shift (+1 if inclusive))
+                        bn = bnode
+                        add = shift + (1 if incl else 0)
+                        if add:
+                            bn = {"k": "Bin", "op": "+" if add > 0 else "-", "lhs": bnode, "rhs": {"k": "Int", "v": str(abs(add))}}
                         last = {"k": "Bin", "op": "-", "lhs": REG[size_s], "rhs": {"k": "Int", "v": "1"}}
-                        fh = e.facts_at(loop["init"]) or set()
-                        same = norm(bnode) == size_s and not incl
+                        fh = e.facts_at(lp["at"]) or set()
+                        same = norm(bnode) == size_s and add == 0
                         try:
                             wit2, nok2 = (None, 1) if same else small_model(set(fh) | inv | {("<", "0", size_s, True, frozenset(), frozenset())}, last, bn)
                         except Unknown as ex:
@@ -4408,7 +4787,6 @@ def rule_loop_range(ck, W, pcs, facts):
                             rec.setdefault("unk", []).append("the loop tests `%s` but is bounded by `%s`; the size of %s is not known from a constant resize()" % (
                                 render(x)[:40], render(bnode)[:40], V))
                         elif wit2 is not None:
-                            other = norm(bnode)
                             known = V in table
                             rec["probs"].append("[%s] the loop tests every `%s` but runs only to `%s`%s: entry %d of %s is never tested, a missing block of that dimension is accepted" % (
                                 first_targ(pc.cls) or "", render(x)[:40], render(bnode)[:40],
